@@ -229,6 +229,10 @@ func (db *DB) writeLocked(batch, ourBatch *Batch, merge, sync bool) error {
 
 	// Write journal.
 	if err := db.writeJournal(batches, seq, sync); err != nil {
+		// The record may have reached the journal (e.g. only the sync failed).
+		// Consume its sequence numbers so that a later, acknowledged batch can
+		// never collide with it and be skipped by journal recovery.
+		db.addSeq(uint64(batchesLen(batches)))
 		db.unlockWrite(overflow, merged, err)
 		return err
 	}
